@@ -713,7 +713,7 @@ class _Generator(Generator):
         return encode_lines, decode_lines
 
     def get_encoded_octet_string_lengths(self, type_, checker):
-        with self.members_backtrace_push(type_.name):
+        with self.members_backtrace_push(canonical(type_.name)):
             if checker.minimum == checker.maximum:
 
                 return [checker.maximum]
@@ -823,7 +823,7 @@ class _Generator(Generator):
         function_name = 'get_choice_{}_length'.format(camel_to_snake_case(type_.name))
 
         if function_name not in self.additional_helpers:
-            with self.members_backtrace_push(type_.name):
+            with self.members_backtrace_push(canonical(type_.name)):
                 choice = '{}choice'.format(self.location_inner('', '.'))
                 choice_length_lines = []
 
@@ -921,7 +921,7 @@ class _Generator(Generator):
         return encode_lines, decode_lines
 
     def get_encoded_enumerated_length(self, type_):
-        with self.members_backtrace_push(type_.name):
+        with self.members_backtrace_push(canonical(type_.name)):
             return ['(uint32_t)enumerated_value_length((int32_t)src_p->{})'.format(
                 self.location_inner()), 1]
 
@@ -1023,7 +1023,7 @@ class _Generator(Generator):
                                                       checker.element_type)
         inner_length = encoded_lengths_as_string(inner_lengths)
 
-        with self.c_members_backtrace_push(type_.name):
+        with self.c_members_backtrace_push(canonical(type_.name)):
 
             return [1,
                     '(uint32_t)minimum_uint_length(src_p->{loc}length)'.format(
